@@ -12,7 +12,7 @@ PREDECLARED = ["len", "append", "cap", "copy", "new", "make", "panic", "print", 
 RUNTIME = ["fmt", "main0", "init", "missing", "os", "strconv", "domain", "my_main", "main1"]    # Go-level helper names that are not goml builtins (those would clash at the goml level)
 TEMPS = ["t0", "t5", "ret3", "mtmp0", "x1", "env3", "a__1"]
 TYPEISH = ["Tuple2_int32_bool", "closure_env_adder_0", "dyn__Show", "ref_int32_x", "ref__Ref_int32", "ref_get__Ref_int32", "array_get__Array_3_int32",
-           "describe__T_int32", "ident__T_string", "int", "uint", "rune"]
+           "describe__T_int32", "ident__T_string", "int", "uint", "rune", "MyTParamBox", "TParam_T"]
 # names shaped like the runtime helpers the compiler generates (int32_to_string, bool_to_json, ...): a user entity may carry them
 HELPERISH = ["audit_to_string", "emit_to_json", "to_string", "to_json"]
 HOSTILE = GO_KEYWORDS + PREDECLARED + RUNTIME + TEMPS + TYPEISH + HELPERISH
